@@ -8,6 +8,9 @@ use crate::{
     renderer::RemoveEventHandler,
 };
 use wasm_bindgen::JsValue;
+#[cfg(leptos_verif)]
+use crate::renderer::dom::Element;
+#[cfg(not(leptos_verif))]
 use web_sys::Element;
 
 /// Extends an HTML element, allowing you to add attributes and children to the
